@@ -91,7 +91,8 @@ def reindent(text, rng):
     for k, t in enumerate(toks):
         if t.type == T.INDENT:
             parent = stack[-1]
-            unit = rng.choice([" ", "  ", "   ", "    ", "     ", "        ", "\t", "\t\t"])
+            # (a step may add tabs and blanks at once, as long as no tab comes after a blank)
+            unit = rng.choice([" ", "  ", "   ", "    ", "     ", "        ", "\t", "\t\t", "\t ", "\t  ", "\t\t    "])
             if "\t" in unit and parent.strip("\t"):
                 unit = "    "
             stack.append(parent + unit)
